@@ -267,7 +267,9 @@ func PrintV(d *VDoc, lay VLayout) *VPrinted {
 					}
 					vk := ok + ".v" + strconv.Itoa(j+1)
 					p.mark(vk)
-					p.sb.WriteString("$" + vd.N + ": ")
+					p.sb.WriteString("$")
+					p.mark(vk + ".n") // the Name node of the variable
+					p.sb.WriteString(vd.N + ": ")
 					p.typeRef(vd.Type, vk+".t")
 					if vd.HasDef {
 						p.sb.WriteString(" = ")
